@@ -6,7 +6,7 @@ import glob, json, os, subprocess, sys
 WT = "/tmp/wtc"
 out = {}
 env = dict(os.environ, PYTHONPATH=f"{WT}/src")
-for sd in sorted(glob.glob("/tmp/wt/C*/_seed/C*_*") + glob.glob("/tmp/wt2/C*/_seed/C*_*")):
+for sd in sorted(glob.glob(os.environ.get("SEEDBASE", "/tmp/wt3") + "/C*/_seed/C*_*")):
     name = os.path.basename(sd)
     subprocess.run(["git", "-C", WT, "checkout", "-q", "--", "."])
     c = subprocess.run(["/venv/bin/python", os.path.join(sd, "demo.py")], cwd=WT, env=env, capture_output=True, text=True)
@@ -24,4 +24,4 @@ for sd in sorted(glob.glob("/tmp/wt/C*/_seed/C*_*") + glob.glob("/tmp/wt2/C*/_se
     print(name, out[name], flush=True)
     subprocess.run(["git", "-C", WT, "checkout", "-q", "--", "."])
     subprocess.run(["rm", "-rf", os.path.join(WT, "logs")])
-json.dump(out, open("/tmp/wt/seedtests.json", "w"), indent=1)
+json.dump(out, open("/tmp/wt3/seedtests.json", "w"), indent=1)
